@@ -204,8 +204,7 @@ def run_harness(res, flavor, harness, args, cases, seed, nshards=None, timeout=9
                 case_arg="--cases", retry_inconclusive=True):
     """Run `cases` cases of one harness mode split over shards; merge into res."""
     exe = os.path.join(BUILD, flavor, harness)
-    outdir = os.path.join(BUILD, "run", res.prop)
-    os.makedirs(outdir, exist_ok=True)
+    outdir = workdir(res.prop)
     if nshards is None:
         nshards = min(NCPU, max(1, cases))
     per = (cases + nshards - 1) // nshards
@@ -332,6 +331,8 @@ def finish(res, tier, seed, rule, required=(), level="exploration", assumptions=
         if missing:
             print("INCONCLUSIVE: required event kinds never observed: %s" % ",".join(missing))
         rc = 2
+    if rc == 2:
+        KEEP_RUN[0] = True      # keep scripts / shard outputs of an inconclusive run for diagnosis
     cov = dict(evaluations=int(evaluations), distinct_nontrivial=len(res.hashes), rule=rule,
                samples=res.samples[:6] or ["(no sample emitted)"], events=dict(sorted(res.stats.items())),
                flavors=sorted(res.flavors), known_findings_seen=sorted(known.keys()),
@@ -361,8 +362,7 @@ def run_jobs(res, flavor, harness, jobs, timeout=900, env_extra=None, workers=No
     STAT/SAMPLE/VIOL lines printed by the harness are merged as in run_harness; all other stdout lines are
     left for the caller's oracle (read o['out'])."""
     exe = os.path.join(BUILD, flavor, harness)
-    outdir = os.path.join(BUILD, "run", res.prop)
-    os.makedirs(outdir, exist_ok=True)
+    outdir = workdir(res.prop)
     env = sanitizer_env(flavor)
     if env_extra:
         env.update(env_extra)
@@ -399,7 +399,26 @@ def trace_lines(path, prefix):
                 yield ln[len(prefix) + 1:].rstrip("\n")
 
 
+_WORKDIRS = {}
+KEEP_RUN = [bool(os.environ.get("VERIF_KEEP_RUN"))]
+
+
 def workdir(prop):
-    d = os.path.join(BUILD, "run", prop)
-    os.makedirs(d, exist_ok=True)
+    """scratch directory of this invocation (scripts, shard outputs): private to the process, so that a quick and a
+    thorough run of the same check (or two seeds) can run side by side; removed at exit unless the run was not clean"""
+    d = _WORKDIRS.get(prop)
+    if d is None:
+        d = os.path.join(BUILD, "run", "%s.%d" % (prop, os.getpid()))
+        os.makedirs(d, exist_ok=True)
+        _WORKDIRS[prop] = d
+        if len(_WORKDIRS) == 1:
+            import atexit
+            atexit.register(_cleanup_workdirs)
     return d
+
+
+def _cleanup_workdirs():
+    if KEEP_RUN[0]:
+        return
+    for d in _WORKDIRS.values():
+        shutil.rmtree(d, ignore_errors=True)
